@@ -86,7 +86,8 @@ def one(t):
         # hashing open of that path was attempted in this run, the entry was never found unreadable
         O_NOATIME = 0o1000000
         hashing_open = {e["p1"] for e in injected if e["call"] == "openr" and (e.get("a", 0) & O_NOATIME)}
-        injected = [e for e in injected if e["call"] != "openr" or e["p1"] in hashing_open]
+        if "--transform" not in extra:        # (with --transform every open of a file serves the copy handed to the program)
+            injected = [e for e in injected if e["call"] != "openr" or e["p1"] in hashing_open]
         res = {"faults": faults, "disk": disk, "extra": extra, "rc": r.rc, "stderr": r.err.decode("utf-8", "replace")[-700:], "injected": len(injected),
                "injected_errnos": sorted({e["errno"] for e in injected}),
                "timeout": r.timed_out, "panicked": r.panicked}
@@ -123,7 +124,7 @@ def one(t):
                 delivered = {os.path.basename(x["p2"]) for x in log if x["call"] == "readdir" and x.get("p1") == e["p1"] and x.get("p2") and x["ret"] == 0}
                 lost |= {os.path.join(e["p1"], n) for n in os.listdir(e["p1"]) if n not in delivered}
         unreadable = {e["p1"] for e in injected if e["call"] in ("openr", "read")}
-        if r.rc == 0 and not r.timed_out:
+        if r.rc == 0 and not r.timed_out and "--transform" not in extra:
             scanned = []
             for root, dirs, names in os.walk(base):
                 for n in names:
@@ -192,6 +193,28 @@ def transform_cache_case(nth):
         lib.rmtree(work)
 
 
+def missing_root_case(k_):
+    """Input paths read from standard input (no start-up validation): one of three does not exist. The others must be scanned as if it
+    had not been named, wherever it stands in the list."""
+    work = lib.mkscratch("c15r")
+    try:
+        base = build(work, 0)
+        roots = ["b/d1", "b/d2/s", "b/d2"]
+        roots.insert(k_, "b/no-such-root")
+        env = lib.base_env(work, disk_kind="ssd")
+        env["RAYON_NUM_THREADS"] = "1"
+        args = ["group", "--stdin", "--threads", "1", "--rf-over", "0"]
+        r = lib.run_fclones(args, work, env, stdin=("\n".join(roots) + "\n").encode(), timeout=60)
+        ref = lib.run_fclones(args, work, env, stdin=("\n".join(x for x in roots if x != "b/no-such-root") + "\n").encode(), timeout=60)
+        shape = lambda out: sorted((g["len"], tuple(g["paths"])) for g in gg.parse_text_report(out)[1])
+        return {"faults": [("stat", "no-such-root", k_ + 1, "ENOENT")], "disk": "ssd", "extra": ["--stdin", "(missing path at position %d of 4)" % (k_ + 1)],
+                "rc": r.rc, "stderr": r.err.decode("utf-8", "replace")[-700:], "injected": 1, "injected_errnos": [2], "timeout": r.timed_out, "panicked": r.panicked,
+                "warned": b"warn" in r.err, "removed": ["no-such-root"], "body_equal": shape(r.out) == shape(ref.out),
+                "diff": c13.diff(c13.body(ref.out), c13.body(r.out)), "ref_rc": ref.rc}
+    finally:
+        lib.rmtree(work)
+
+
 def transform_signal_case(sig, cache):
     """--transform whose program dies from a signal (what an I/O error on a memory-mapped input does) after writing the readable
     part of one input: that input must be left out with a warning, never grouped with a file equal to its readable part."""
@@ -241,7 +264,8 @@ def main(tier):
     lib.build_all()
     rng = random.Random(chk.seed + 15)
     cases = []
-    setups = [(0, "ssd", []), (1, "hdd", []), (0, None, ["--rf-over", "0"]), (1, "ssd", ["--unique"]), (2, "ssd", ["-S"])]
+    # the last: --transform in copy mode ($IN without --no-copy: every file is copied to a temporary directory before the program reads it)
+    setups = [(0, "ssd", []), (1, "hdd", []), (0, None, ["--rf-over", "0"]), (1, "ssd", ["--unique"]), (2, "ssd", ["-S"]), (0, "ssd", ["--transform", "cat $IN"])]
     for variant, disk, extra in setups:
         pos, _ = calibrate(variant, disk, extra)
         singles = []
@@ -267,6 +291,7 @@ def main(tier):
     lib.log(f"[C15] {len(cases)} faulted runs")
     results = lib.pmap(one, cases, workers=12)
     results += [transform_cache_case(n) for n in (1, 2, 3)]
+    results += [missing_root_case(k_) for k_ in (0, 1, 2)]
     results += [transform_signal_case(sg, c) for sg, c in (("KILL", False), ("BUS", False), ("SEGV", True))]
     done = [r for r in results if "skip" not in r]
     nontrivial = set()
